@@ -74,8 +74,12 @@ def b_not(x):
     if x.op == 'not':
         return x.args[0]
     if x.op == 'cmp':
-        neg = {'<': '>=', '>=': '<', '>': '<=', '<=': '>', '==': '!=', '!=': '=='}
-        return B('cmp', neg[x.args[0]], x.args[1], x.args[2])
+        o, a, b = x.args
+        if o == '<':
+            return B('cmp', '<=', b, a)
+        if o == '<=':
+            return B('cmp', '<', b, a)
+        return B('cmp', '!=' if o == '==' else '==', a, b)
     return B('not', x)
 
 
@@ -210,6 +214,9 @@ class Ref:
     def __repr__(self):
         return '&%r' % (read_lv(self.lv),)
 
+    def __hash__(self):
+        return hash(self.key())
+
 
 class FnItem:
     __slots__ = ('path', 'substs', 'crate')
@@ -229,9 +236,20 @@ def vkey(v):
         return None
     if isinstance(v, (RF, B, St, Sym, Ite, Ref, FnItem)):
         return v.key()
+    if isinstance(v, nf.Atom):
+        return ('atom', v.id)
     if isinstance(v, (str, int, bool, tuple, Fraction)):
         return v
     raise TypeError('no key for %r' % (v,))
+
+
+def frozen(v):
+    """Immutable snapshot of a value for use as an atom argument (references -> current pointee)."""
+    while isinstance(v, Ref):
+        v = read_lv(v.lv)
+    if v is None:
+        return 'uninit'
+    return v if hasattr(v, 'key') else vkey(v)
 
 
 def ite(c, a, b):
@@ -280,7 +298,7 @@ def mk_sym(atom, ty):
     if ty in SCALAR_INT or ty in SCALAR_FLOAT:
         return RF.atom(atom)
     if ty == 'bool':
-        return B('atom', atom.key)
+        return B('atom', atom)
     return Sym(atom, ty)
 
 
@@ -313,7 +331,12 @@ def arr(items):
 
 # --- field access on values ----------------------------------------------------------
 
+def _fname(name):
+    return int(name) if isinstance(name, str) and name.isdigit() else name
+
+
 def get_field(v, name, ty=None, idx=None):
+    name = _fname(name)
     if isinstance(v, Ref):
         v = read_lv(v.lv)
     if isinstance(v, St):
@@ -326,13 +349,14 @@ def get_field(v, name, ty=None, idx=None):
         raise AnalysisIncomplete('field %r missing in %r' % (name, v))
     if isinstance(v, Sym):
         fname = (v.variant + '.' if v.variant else '') + str(name)
-        return mk_sym(nf.app_atom('field', v.atom.key, fname), ty or '?')
+        return mk_sym(nf.app_atom('field', v.atom, fname), ty or '?')
     if isinstance(v, Ite):
         return ite(v.c, get_field(v.a, name, ty, idx), get_field(v.b, name, ty, idx))
     raise AnalysisIncomplete('field %r of non-aggregate %r' % (name, v))
 
 
 def set_field(v, name, new, adt_hint=None):
+    name = _fname(name)
     if isinstance(v, St):
         f = dict(v.fields)
         f[name] = new
@@ -359,7 +383,7 @@ def get_index(v, idx, ty=None):
         pass
     if isinstance(v, Ite):
         return ite(v.c, get_index(v.a, idx, ty), get_index(v.b, idx, ty))
-    return mk_sym(nf.app_atom('elem', vkey(v), idx), ty or elem_ty(v))
+    return mk_sym(nf.app_atom('elem', frozen(v), idx), ty or elem_ty(v))
 
 
 def elem_ty(v):
@@ -445,7 +469,7 @@ def _write_path(v, path, new):
 # --- events ---------------------------------------------------------------------------
 
 class Event:
-    __slots__ = ('kind', 'callee', 'args', 'result', 'body', 'line', 'guard', 'depth', 'term', 'in_loop', 'extra')
+    __slots__ = ('kind', 'callee', 'args', 'fargs', 'result', 'body', 'line', 'guard', 'depth', 'term', 'in_loop', 'extra')
 
     def __repr__(self):
         return '<%s %s(%s) @%s:%s>' % (self.kind, self.callee, ', '.join(repr(a) for a in self.args), self.body['path'].split('::')[-1], self.line)
@@ -480,6 +504,7 @@ class Interp:
         self.fresh = 0
         self.evaluations = 0
         self.unknown_calls = {}
+        self.assumed = set()      # keys of branch conditions whose other arms all diverge (assertions)
         from . import tables as T
         self.tables = T
 
@@ -596,10 +621,14 @@ class Interp:
                 pre = self.snap(st)
                 g0 = st.guard
                 atJ = []
+                live = []
                 for cond, tgt in arms:
                     self.restore(st, pre)
                     st.guard = g0 + (cond,)
+                    nret = sum(len(x) for x in self._returns)
                     r = self.run(st, cfg, tgt, sub_stops, first=False, active_loops=active_loops) if tgt not in sub_stops else {tgt: [(st.guard, self.snap(st))]}
+                    if r or sum(len(x) for x in self._returns) != nret:
+                        live.append(cond)
                     for sk, lst in r.items():
                         if sk == J:
                             atJ.extend(lst)
@@ -607,6 +636,9 @@ class Interp:
                             for g, s in lst:
                                 add(sk, g, s)
                 st.guard = g0
+                if len(live) == 1:
+                    # every other arm diverges (panic/unreachable): the condition is an assertion
+                    self.assumed.add(live[0].key())
                 if J is None or not atJ:
                     return out
                 self.restore(st, self.merge_snaps(atJ, len(g0)))
@@ -648,6 +680,16 @@ class Interp:
                 out.setdefault(sk, []).extend(lst)
         if not exit_states:
             return out
+        # one merged state per exit block
+        by_exit = {}
+        for ex, g, s in exit_states:
+            by_exit.setdefault(ex, []).append((g, s))
+        exit_states = []
+        for ex, lst in by_exit.items():
+            if len(lst) == 1:
+                exit_states.append((ex, g0, lst[0][1]))
+            else:
+                exit_states.append((ex, g0, self.merge_snaps(lst, len(g0))))
         # evaluate from each exit to the continuation J (or to stops / function end)
         atJ = []
         for ex, g, s in exit_states:
@@ -677,48 +719,127 @@ class Interp:
         return out
 
     def havoc_loop(self, st, cfg, header, L):
-        """Replace every location that the loop may write by a phi symbol."""
-        roots = {}
+        """Replace every location that the loop may write by a phi symbol.  A `&mut x` that only
+        flows into one crate-local call is havocked field-wise using the callee's mod-set."""
+        from .effects import modset, ALL
+        roots = {}        # id(cell) -> cell            (whole-object havoc)
+        partial = {}      # id(cell) -> (cell, set(fields))
 
         def root_of(place):
             cell = st.cells[place['l']]
-            derefs = [e for e in place['p'] if e['k'] == 'deref']
-            if not derefs:
-                return cell
-            v = cell.v
-            while isinstance(v, Ref):
-                cell = v.lv.cell
-                # only one level is needed to find the storage root
-                return cell
+            if any(e['k'] == 'deref' for e in place['p']):
+                v = cell.v
+                if isinstance(v, Ref):
+                    return v.lv.cell
             return cell
 
-        def note(cell):
-            roots[id(cell)] = cell
+        def first_field(place):
+            """First-level field of the storage root that `place` lies in (None = the whole object)."""
+            cell = st.cells[place['l']]
+            v = cell.v
+            derefs = any(e['k'] == 'deref' for e in place['p'])
+            if derefs and isinstance(v, Ref) and v.lv.path:
+                st0 = v.lv.path[0]
+                return st0[1] if st0[0] == 'f' else None
+            for e in place['p']:
+                if e['k'] in ('deref', 'downcast'):
+                    continue
+                if e['k'] == 'field':
+                    return e.get('n', e['i'])
+                return None
+            return None
 
+        def note(cell, field=None):
+            if field is None or not isinstance(cell.v, (St, Sym)) or (isinstance(cell.v, St) and cell.v.adt in ('glam::DVec3', 'tuple', 'array')):
+                roots[id(cell)] = cell
+            elif id(cell) not in roots:
+                if id(cell) in partial:
+                    partial[id(cell)][1].add(field)
+                else:
+                    partial[id(cell)] = (cell, {field})
+
+        # temporaries `_t = &mut P` created in the loop and the single call consuming them
+        temps = {}
+        uses = {}
+        for x in L:
+            bl = cfg.blocks[x]
+            for s in bl['stmts']:
+                if s['k'] == 'assign' and not s['place']['p'] and s['rv']['k'] == 'ref' and s['rv'].get('mut'):
+                    temps.setdefault(s['place']['l'], []).append(s['rv']['place'])
+            t = bl['term']
+            if t['k'] == 'call':
+                for i, a in enumerate(t['args']):
+                    if a['k'] == 'move' and not a['place']['p']:
+                        uses.setdefault(a['place']['l'], []).append((t, i))
+        handled_temps = set()
+        for tl, places in temps.items():
+            us = uses.get(tl, [])
+            if len(places) == 1 and len(us) == 1:
+                t, i = us[0]
+                callee = t.get('resolved') or t.get('callee')
+                P = places[0]
+                simple = all(e['k'] == 'deref' for e in P['p'])
+                if callee in self.facts.by_path and simple:
+                    ms = modset(self.facts, callee, i)
+                    if ms is not ALL:
+                        cell = root_of(P)
+                        if id(cell) in partial:
+                            partial[id(cell)][1].update(ms)
+                        else:
+                            partial[id(cell)] = (cell, set(ms))
+                        handled_temps.add(tl)
         for x in L:
             bl = cfg.blocks[x]
             for s in bl['stmts']:
                 if s['k'] in ('assign', 'setdiscr'):
-                    note(root_of(s['place']))
+                    if s['k'] == 'assign' and s['place']['l'] in handled_temps and not s['place']['p']:
+                        note(st.cells[s['place']['l']])
+                        continue
+                    note(root_of(s['place']), first_field(s['place']))
                     rv = s.get('rv')
                     if rv and rv['k'] in ('ref', 'rawptr') and (rv.get('mut') or rv['k'] == 'rawptr'):
-                        note(root_of(rv['place']))
+                        note(root_of(rv['place']), first_field(rv['place']))
             t = bl['term']
             if t['k'] == 'call':
                 note(root_of(t['dest']))
                 for a in t['args']:
                     if a['k'] in ('copy', 'move'):
                         c = st.cells[a['place']['l']]
+                        if a['place']['l'] in handled_temps:
+                            continue
                         if (c.ty or '').startswith('&mut') and isinstance(c.v, Ref):
-                            note(c.v.lv.cell)
-            if t['k'] == 'drop':
-                pass
+                            p0 = c.v.lv.path[0] if c.v.lv.path else None
+                            note(c.v.lv.cell, p0[1] if p0 and p0[0] == 'f' else None)
+        for cid, (cell, fields) in partial.items():
+            if cid in roots or cell.v is None:
+                continue
+            self.fresh += 1
+            base = 'phi%d:%s:%s@bb%d' % (self.fresh, st.body['path'].split('::')[-1], cell.name or '?', header)
+            v = cell.v
+            for f in sorted(fields):
+                fty = self.field_ty(cell.ty, f)
+                v = set_field(v, f, mk_sym(nf.sym_atom(base + '.' + f), fty), adt_hint=cell.ty)
+            cell.v = v
         for cell in roots.values():
             if cell.v is None:
                 continue
             self.fresh += 1
             nm = 'phi%d:%s:%s@bb%d' % (self.fresh, st.body['path'].split('::')[-1], cell.name or '?', header)
             cell.v = self.havoc_value(cell.v, nm, cell.ty)
+
+    def field_ty(self, ty, field):
+        """Declared type of `field` of the ADT named by type string `ty` (references stripped)."""
+        t = (ty or '').strip()
+        for pre in ('&mut ', '&'):
+            if t.startswith(pre):
+                t = t[len(pre):]
+        a = self.facts.adt_by_path.get(strip_generics(t).split('<')[0])
+        if a:
+            for v in a['variants']:
+                for f in v['fields']:
+                    if f['name'] == field:
+                        return f['ty']
+        return '?'
 
     def havoc_value(self, v, nm, ty):
         if isinstance(v, Ref):
@@ -728,7 +849,7 @@ class Interp:
         if isinstance(v, RF):
             return RF.sym(nm)
         if isinstance(v, B):
-            return B('atom', nf.sym_atom(nm).key)
+            return B('atom', nf.sym_atom(nm))
         if isinstance(v, St) and v.adt in ('glam::DVec3',):
             return St(v.adt, v.variant, {k: self.havoc_value(x, nm + '.' + str(k), None) for k, x in v.fields.items()})
         return Sym(nf.sym_atom(nm), ty or getattr(v, 'ty', '?'))
@@ -953,7 +1074,7 @@ class Interp:
                 if isinstance(x, B):
                     return ite(x, RF.const(1), RF.const(0))
                 if isinstance(x, Sym):   # enum discriminant cast
-                    return RF.atom(nf.app_atom('discr', x.atom.key))
+                    return RF.atom(nf.app_atom('discr', x.atom))
                 return x
             if kind.startswith('FloatToInt'):
                 return nf.fn_app('trunc', x)
@@ -1013,7 +1134,7 @@ class Interp:
             ca = v.atom
             if ca.kind == 'sym' and ca.name.startswith('const:') and '=' in ca.name:
                 return RF.const(int(ca.name.rsplit('=', 1)[1]))
-            return RF.atom(nf.app_atom('discr', v.atom.key))
+            return RF.atom(nf.app_atom('discr', v.atom))
         if isinstance(v, Ite):
             return ite(v.c, self.discriminant(v.a, rv), self.discriminant(v.b, rv))
         raise AnalysisIncomplete('discriminant of %r' % (v,))
@@ -1023,7 +1144,7 @@ class Interp:
             x = read_lv(x.lv)
         if isinstance(x, St) and x.adt == 'array':
             return RF.const(len(x.fields))
-        return RF.atom(nf.app_atom('len', vkey(x)))
+        return RF.atom(nf.app_atom('len', frozen(x)))
 
     def binop(self, op, a, b, lty=None):
         cmpops = {'Lt': '<', 'Le': '<=', 'Gt': '>', 'Ge': '>=', 'Eq': '==', 'Ne': '!='}
@@ -1036,7 +1157,11 @@ class Interp:
                 return b_or(a, b)
             return b_cmp('!=', a, b)
         base = op.replace('WithOverflow', '').replace('Unchecked', '')
-        a2, b2 = as_rf(a), as_rf(b)
+        try:
+            a2, b2 = as_rf(a), as_rf(b)
+        except TypeError:
+            r = RF.atom(nf.app_atom(base.lower(), frozen(a), frozen(b)))
+            return tup(r, FALSE) if op.endswith('WithOverflow') else r
         is_int = lty in SCALAR_INT
         if base == 'Add':
             r = a2 + b2
@@ -1085,6 +1210,7 @@ class Interp:
         ev.kind = 'call'
         ev.callee = callee
         ev.args = args
+        ev.fargs = [frozen(a) for a in args]     # snapshot at call time (references -> pointee values)
         ev.body = st.body
         ev.line = t.get('line')
         ev.guard = st.guard
@@ -1138,7 +1264,7 @@ class Interp:
                     return v
                 except Diverge:
                     raise
-        return self.opaque(callee, args, ret_ty, st)
+        return self.opaque(callee, args, ret_ty, st, t)
 
     def call_closure(self, fv, fref, packed, ret_ty):
         path = fv.adt[len('closure:'):]
@@ -1153,17 +1279,31 @@ class Interp:
         v, _ = self.call_body(body, [envarg] + inner)
         return v
 
-    def opaque(self, callee, args, ret_ty, st):
-        """Unknown function: congruent uninterpreted result; &mut arguments are havocked."""
+    def opaque(self, callee, args, ret_ty, st, t=None):
+        """Unknown (or deliberately not inlined) function: congruent uninterpreted result;
+        `&mut` arguments are havocked — field-wise when the callee is crate-local and has a mod-set."""
+        from .effects import modset, ALL
         self.unknown_calls[callee] = self.unknown_calls.get(callee, 0) + 1
-        keys = tuple(vkey(a) for a in args)
-        at = nf.app_atom('call:' + strip_generics(callee), *keys)
+        keys = tuple(frozen(a) for a in args)
+        cname = strip_generics(callee)
+        at = nf.app_atom('call:' + cname, *keys)
         for i, a in enumerate(args):
             if isinstance(a, Ref) and a.mut:
                 old = read_lv(a.lv)
-                newv = Sym(nf.app_atom('mut:' + strip_generics(callee), i, *keys), getattr(old, 'ty', None) or '?')
+                ms = modset(self.facts, callee, i) if callee in self.facts.by_path else ALL
+                if ms is not ALL:
+                    ty = None
+                    if t is not None and i < len(t.get('arg_tys', [])):
+                        ty = t['arg_tys'][i]
+                    v = old
+                    for f in sorted(ms):
+                        fty = self.field_ty(ty, f)
+                        v = set_field(v, f, mk_sym(nf.app_atom('mut:' + cname, i, f, *keys), fty), adt_hint=ty)
+                    write_lv(a.lv, v)
+                    continue
+                newv = Sym(nf.app_atom('mut:' + cname, i, *keys), getattr(old, 'ty', None) or '?')
                 if isinstance(old, RF):
-                    newv = RF.atom(nf.app_atom('mut:' + strip_generics(callee), i, *keys))
+                    newv = RF.atom(nf.app_atom('mut:' + cname, i, *keys))
                 write_lv(a.lv, newv)
         if ret_ty == '()':
             return St('tuple', None, {})
@@ -1179,3 +1319,117 @@ def events_calling(interp, pattern, body_suffix=None):
             if body_suffix is None or strip_generics(e.body['path']).endswith(body_suffix):
                 out.append(e)
     return out
+
+
+# --- deep substitution / case assumption -----------------------------------------------
+
+def _rebuild_app(name, args):
+    if name == 'sqrt':
+        return nf.fn_sqrt(args[0])
+    if name == 'abs':
+        return nf.fn_abs(args[0])
+    if name == 'signum':
+        return nf.fn_signum(args[0])
+    if name == 'max':
+        return nf.fn_max(args[0], args[1])
+    if name == 'min':
+        return nf.fn_min(args[0], args[1])
+    if name == 'ite':
+        return ite(args[0], args[1], args[2])
+    return RF.atom(nf.app_atom(name, *args))
+
+
+def subst(x, mapping, _memo=None):
+    """Deep substitution of atoms (keys: nf.Atom) by values, rebuilding applications through their
+    normalising constructors (so ite atoms whose condition becomes constant collapse)."""
+    if _memo is None:
+        _memo = {}
+    if isinstance(x, RF):
+        k = x.key()
+        if k in _memo:
+            return _memo[k]
+        m = {}
+        for i in x.atoms():
+            a = nf.atom_by_id(i)
+            if a in mapping:
+                m[a] = as_rf(mapping[a])
+            elif a.kind == 'app':
+                na = [subst(arg, mapping, _memo) if isinstance(arg, (RF, B, St, Sym, Ite)) else arg for arg in a.args]
+                if any(vkey(p) != vkey(q) if not isinstance(p, (str, int)) else p != q for p, q in zip(na, a.args)):
+                    m[a] = _rebuild_app(a.name, na)
+        r = x.subst(m) if m else x
+        _memo[k] = r
+        return r
+    if isinstance(x, B):
+        if x.op == 'const':
+            return x
+        if x.op == 'cmp':
+            return b_cmp(x.args[0], subst(x.args[1], mapping, _memo), subst(x.args[2], mapping, _memo))
+        if x.op == 'not':
+            return b_not(subst(x.args[0], mapping, _memo))
+        if x.op == 'and':
+            return b_and(subst(x.args[0], mapping, _memo), subst(x.args[1], mapping, _memo))
+        if x.op == 'or':
+            return b_or(subst(x.args[0], mapping, _memo), subst(x.args[1], mapping, _memo))
+        if x.op == 'atom':
+            a = x.args[0]
+            if a in mapping:
+                return mapping[a]
+            return x
+        return x
+    if isinstance(x, St):
+        return St(x.adt, x.variant, {k: subst(v, mapping, _memo) for k, v in x.fields.items()},
+                  subst(x.base, mapping, _memo) if x.base is not None else None)
+    if isinstance(x, Ite):
+        return ite(subst(x.c, mapping, _memo), subst(x.a, mapping, _memo), subst(x.b, mapping, _memo))
+    if isinstance(x, Sym):
+        if x.atom in mapping:
+            return mapping[x.atom]
+        return x
+    if isinstance(x, Ref):
+        return subst(read_lv(x.lv), mapping, _memo)
+    return x
+
+
+def atoms_deep(x, acc=None):
+    """All atoms occurring in x, including inside application arguments."""
+    if acc is None:
+        acc = {}
+    if isinstance(x, RF):
+        for i in x.atoms():
+            a = nf.atom_by_id(i)
+            if a.id not in acc:
+                acc[a.id] = a
+                for arg in a.args:
+                    atoms_deep(arg, acc)
+    elif isinstance(x, B):
+        for a in x.args:
+            atoms_deep(a, acc)
+    elif isinstance(x, nf.Atom):
+        if x.id not in acc:
+            acc[x.id] = x
+            for arg in x.args:
+                atoms_deep(arg, acc)
+    elif isinstance(x, St):
+        for v in x.fields.values():
+            atoms_deep(v, acc)
+        if x.base is not None:
+            atoms_deep(x.base, acc)
+    elif isinstance(x, Ite):
+        atoms_deep(x.c, acc)
+        atoms_deep(x.a, acc)
+        atoms_deep(x.b, acc)
+    elif isinstance(x, Sym):
+        atoms_deep(x.atom, acc)
+    elif isinstance(x, Ref):
+        atoms_deep(read_lv(x.lv), acc)
+    return acc
+
+
+def discr_atom(v):
+    """The discriminant atom of a symbolic enum value."""
+    while isinstance(v, Ref):
+        v = read_lv(v.lv)
+    if isinstance(v, Sym):
+        return nf.app_atom('discr', v.atom)
+    raise AnalysisIncomplete('discriminant atom of non-symbolic %r' % (v,))
